@@ -295,6 +295,8 @@ def typed_value(draw, ann):
     """a value for a slot annotated `ann`"""
     if ann.startswith("Opt") and draw(st.integers(0, 3)) == 0:
         return {"v": None}
+    if not ann.startswith("Opt") and draw(st.integers(0, 11)) == 0:
+        return {"v": None}  # None where a frame is required: not valid data
     r = draw(st.integers(0, 7))
     if r == 0:  # carries the annotation's own schema (valid for it): validation is skipped, outcome identical
         m = ANN_MODELS[ann][0]
